@@ -77,7 +77,11 @@ Print Assumptions C01_registry_complete.
 (* non-vacuity: in_range is inhabited for a response with bit-fields and conditional
    parts (LED state with override enabled) and for one with an absent optional tail *)
 Example C01_in_range_led :
-  In (mkMsg "GetFruLedStateRsp" 45 8 (Some 0) 0 L_GetFruLedStateRsp) registry /\
+  existsb (fun m => String.eqb (m_name m) "GetFruLedStateRsp") registry = true /\
   in_range L_GetFruLedStateRsp
     [VInt 0; VInt 0; VBits [1; 1; 0; 0]; VInt 2; VInt 3; VInt 4; VInt 5; VInt 6; VInt 7; VInt 0].
-Proof. split; [vm_compute; tauto | vm_compute; repeat split; auto; try (right; split; reflexivity)]. Qed.
+Proof.
+  split; [vm_compute; reflexivity|].
+  cbv [in_range L_GetFruLedStateRsp in_range_fields f_kind f_base base_in_range f_dflt].
+  repeat split; try reflexivity; try (left; split; [reflexivity | reflexivity]); try (right; split; reflexivity).
+Qed.
